@@ -383,6 +383,96 @@ def cstep (maxDur : Nat) (s : CState) : Ev → CState
 
 def crun (maxDur : Nat) (s : CState) (evs : List Ev) : CState := evs.foldl (cstep maxDur) s
 
+
+/-! ## sequences of requests on one shared admin cache (order-dependent authorisation)
+
+Today's code has exactly one writer of `isAdminCache`: `IsAdminUser(user)`, which stores
+`_IsAdminUser(user)` — a verdict that depends only on (user, configuration, directory). Every gate
+that needs an administrator reads it through `IsAdminUser`; `isAutomationAdmin` calls
+`IsAdminUser` first and looks at `AutomationAdmins` afterwards, *outside* the cache. -/
+
+/-- the value `IsAdminUser(u)` returns in cache state `s` when the directory would answer `dir` -/
+def isAdminUserRes (maxDur : Nat) (s : CState) (u : Name) (dir : Option Bool) : Bool :=
+  if (Cache.get maxDur s.cache s.now u).2 then (Cache.get maxDur s.cache s.now u).1
+  else match dir with
+    | some v => v
+    | none => (Cache.get maxDur s.cache s.now u).1
+
+/-- the property predicates with the administrator verdict as a parameter -/
+def effectAllowedB (adm : Bool) (cfg : Cfg) (groups : Groups) (op : Op) (actor : Name) (level : Nat)
+    (target : Name) : Effect → Bool
+  | .changed u =>
+    if u == actor then !(op.userAdmin) || adm
+    else u == target && ((op.tokenOp && adm && u2fBit level) || (op.userAdmin && adm))
+  | .read u => u == actor || (op == .viewProfile && u == target && adm)
+  | .listed => op == .listUsers && adm
+  | .cert cn =>
+    op == .roleCert && cn == target && (adm || cfg.automationAdmins.contains actor) &&
+      isAutomationIdentity cfg groups cn
+
+def statusAllowedB (adm : Bool) (op : Op) : Bool := !(op.userAdmin) || adm
+
+/-- one request; `groups` is the directory content at the moment it is handled -/
+structure Req where
+  op : Op
+  actor : Name
+  level : Nat
+  target : Name
+  groups : Groups
+
+/-- does the handler reach an `IsAdminUser(actor)` call? After an accepted session every handler
+does, except the two TOTP enrolment handlers. (`profileHandler` with an empty target calls it for
+the `UsersLink` field only; a second same-instant call of the same handler is a cache hit and
+changes nothing, so one call is modelled.) -/
+def consultsAdmin (cfg : Cfg) (r : Req) : Bool :=
+  (r.level &&& requiredLevel cfg r.op != 0) && r.op != .totpGenerate && r.op != .totpValidateNew
+
+/-- ghost record of a handled request -/
+structure Handled where
+  t : Nat
+  r : Req
+  /-- what `IsAdminUser(actor)` returned (false when it was not called) -/
+  adminV : Bool
+  dec : Decision
+
+structure HState where
+  c : CState
+  handled : List Handled
+
+def HState.init (t0 : Nat) : HState := { c := CState.init t0, handled := [] }
+
+inductive HEv
+  | advance (d : Nat)
+  | req (r : Req)
+
+def decide' (cfg : Cfg) (r : Req) (adminV : Bool) : Decision :=
+  authorizeV r.op r.actor r.level r.target cfg adminV (automationUser cfg r.groups r.target)
+
+def hreq (maxDur : Nat) (cfg : Cfg) (s : HState) (r : Req) : HState :=
+  if consultsAdmin cfg r then
+    { c := cstep maxDur s.c (.call r.actor (adminVerdict cfg r.groups r.actor)),
+      handled := ⟨s.c.now, r, isAdminUserRes maxDur s.c r.actor (adminVerdict cfg r.groups r.actor),
+        decide' cfg r (isAdminUserRes maxDur s.c r.actor (adminVerdict cfg r.groups r.actor))⟩ :: s.handled }
+  else
+    { s with handled := ⟨s.c.now, r, false, decide' cfg r false⟩ :: s.handled }
+
+def hstep (maxDur : Nat) (cfg : Cfg) (s : HState) : HEv → HState
+  | .advance d => { s with c := cstep maxDur s.c (.advance d) }
+  | .req r => hreq maxDur cfg s r
+
+def hrun (maxDur : Nat) (cfg : Cfg) (s : HState) (evs : List HEv) : HState :=
+  evs.foldl (hstep maxDur cfg) s
+
+/-- **administrator according to configuration and directory** at some handled request of the same
+actor not later than `t`: less than `maxDur` before `t`, or followed by a request of that actor at
+which the directory did not answer, itself less than `maxDur` before `t` (the code's documented
+fallback). Computed from the history and the CONFIG only — never from the cache. -/
+def backedB (maxDur : Nat) (cfg : Cfg) (hist : List Handled) (t : Nat) (u : Name) : Bool :=
+  hist.any (fun h' => h'.r.actor == u && decide (h'.t ≤ t) && isAdmin cfg h'.r.groups u &&
+    (decide (t - h'.t < maxDur) ||
+     hist.any (fun h'' => h''.r.actor == u && decide (h'.t ≤ h''.t) && decide (h''.t ≤ t) &&
+       decide (t - h''.t < maxDur) && (adminVerdict cfg h''.r.groups u == none))))
+
 /-- the cache property as a predicate on an observed history: the verdict `v` handed out for `u` at
 time `t` is explained by what the directory offered at the calls so far -/
 def blackboxOK (maxDur : Nat) (offered : List Consult) (t : Nat) (u : Name) (v : Bool) : Bool :=
